@@ -54,6 +54,10 @@ func (s *verifSink) Write(p []byte) (int, error) {
 	return room, s.failure()
 }
 
+// WriteString: like a real file, the sink takes strings directly (buffered writers hand over a string that does
+// not fit into their empty buffer without copying it)
+func (s *verifSink) WriteString(p string) (int, error) { return s.Write([]byte(p)) }
+
 // failure produces the error of the configured kind: a made-up one, or the real error value the operating
 // system returns for a pipe whose reader is gone (EPIPE), a full device (ENOSPC) or a closed file (a
 // *fs.PathError around os.ErrClosed)
@@ -94,6 +98,7 @@ func (s *verifSink) failure() error {
 type verifReader struct {
 	r         io.Reader
 	name      string
+	before    func() // called once, before the first Read reaches the file
 	limit     int
 	chunk     int
 	partial   bool
@@ -104,6 +109,11 @@ type verifReader struct {
 }
 
 func (f *verifReader) Read(p []byte) (int, error) {
+	if f.before != nil {
+		b := f.before
+		f.before = nil
+		b()
+	}
 	f.reads++
 	if f.chunk > 0 && len(p) > f.chunk {
 		p = p[:f.chunk]
@@ -151,6 +161,10 @@ type verifFaultJob struct {
 	SinkLimit int              `json:"sink_limit"`
 	SinkKind  string           `json:"sink_kind,omitempty"`
 	Reads     []verifReadFault `json:"reads,omitempty"`
+	// Nested is a second job that runs from start to end inside this one, when this one's
+	// reader number NestedAt is read for the first time: two reports alive in one process
+	Nested   *verifFaultJob `json:"nested,omitempty"`
+	NestedAt int            `json:"nested_at,omitempty"`
 }
 
 type verifReaderState struct {
@@ -170,6 +184,7 @@ type verifFaultRes struct {
 	SinkErrs int                `json:"sink_errs"`
 	Writes   int                `json:"writes"`
 	Readers  []verifReaderState `json:"readers,omitempty"`
+	Nested   *verifFaultRes     `json:"nested,omitempty"`
 }
 
 func verifRunFault(j verifFaultJob) (res verifFaultRes) {
@@ -188,6 +203,12 @@ func verifRunFault(j verifFaultJob) (res verifFaultRes) {
 				for _, rf := range j.Reads {
 					if rf.Idx == i {
 						fr.limit, fr.chunk, fr.partial = rf.Limit, rf.Chunk, rf.Partial
+					}
+				}
+				if j.Nested != nil && i == j.NestedAt {
+					fr.before = func() {
+						nr := verifRunFault(*j.Nested)
+						res.Nested = &nr
 					}
 				}
 				frs = append(frs, fr)
